@@ -17,6 +17,7 @@ package traefikoidc_test
 
 import (
 	"bufio"
+	"runtime/debug"
 	"encoding/json"
 	"fmt"
 	mrand "math/rand"
@@ -157,3 +158,12 @@ func readJSONFile(p string) M {
 }
 
 func newRand(seed int64) *mrand.Rand { return mrand.New(mrand.NewSource(seed)) }
+
+// guard is deferred at the top of every family's bubble function: a panic that escapes the per-step recovery (for instance
+// inside a direct API call of the harness) is recorded as a violation of the property under check, with the trace flushed.
+func guard() {
+	if pv := recover(); pv != nil {
+		T.oracle(T.prop, "panic escaped into the harness", M{"panic": fmt.Sprint(pv), "stack": string(debug.Stack())}, M{"family": os.Getenv("VERIF_FAMILY"), "seed": T.seed})
+		T.finish()
+	}
+}
